@@ -99,6 +99,8 @@ def classify(meta, run, unit_file):
 
     failed = []
     tool = []
+    canary_lines = set(meta.get('canary_lines', []))
+    canary_failed = False
     if run['timed_out']:
         tool.append('verus timed out after %.0fs' % run['wall_s'])
     for d in run['diags']:
@@ -109,6 +111,9 @@ def classify(meta, run, unit_file):
         if msg.startswith('aborting due to') or msg.startswith('For more information'):
             continue
         spans = [s for s in d.get('spans', []) if s.get('file_name', '').endswith(base)]
+        if OBLIGATION_RE.search(msg) and any(s['line_start'] in canary_lines for s in spans):
+            canary_failed = True   # expected: `ensures false` must not be provable
+            continue
         if OBLIGATION_RE.search(msg):
             # which clause?  prefer a span that lies on a clause line; else the enclosing function body
             hit = None
@@ -150,9 +155,11 @@ def classify(meta, run, unit_file):
                                                  'rlimit': fb.get('rlimit', 0)}
         except Exception:
             pass
-        if not vr.get('success') and not failed and not tool:
+        if not vr.get('success') and not failed and not tool and not canary_failed:
             tool.append('verus reported failure without a classifiable diagnostic: %s' % run['stderr_tail'][-800:])
-    return {'failed': failed, 'tool': tool, 'fn_status': fn_status}
+    if canary_lines and not canary_failed and js is not None and not tool:
+        tool.append('CANARY VERIFIED: `ensures false` was proved with the unit\'s axioms in scope -- trusted base inconsistent')
+    return {'failed': failed, 'tool': tool, 'fn_status': fn_status, 'canary_failed': canary_failed}
 
 
 def assemble_and_verify(unit, outdir, seed=None, rlimit=None, timeout=900, cache=True):
